@@ -450,6 +450,8 @@ func runC12E2E(c *Ctx) {
 	c09Env()
 	os.Setenv("PPROF_BINARY_PATH", "/nonexistent-c12")
 	runC12E2EShapes(c)
+	runC12DropE2E(c)
+	runC12RareShapes(c)
 	for k := 0; k < c.Budget(70, 700); k++ {
 		p := c12FetchProfile(r, false)
 		for _, s := range p.Sample {
